@@ -52,7 +52,7 @@ void h_readFile(void)
 /* ---------------------------------------------------------------- readUint / readInt (1, 2 or 4 bytes) */
 size_t contract_c3d__readUint(struct c3d *self, unsigned int nByteToRead, int nByteFromPrevious, const int *pos)
 __CPROVER_requires(vf_exc == 0 && __CPROVER_rw_ok(self, sizeof(*self)) && VF_ISTREAM_OK(ST) && __CPROVER_r_ok(pos, sizeof(*pos)) &&
-                   nByteToRead <= 4)
+                   nByteToRead <= 512)
 __CPROVER_assigns(ST->pos, ST->eof, ST->fail, ST->work VF_GHOST_ALLOC)
 /*@ C02 C12 : readUint.byte */
 __CPROVER_ensures((*pos == VF_IOS_cur && GOOD0 && nByteToRead == 1 && AVAIL0 >= 1) ==> __CPROVER_return_value == IMG((size_t)POS0))
@@ -74,7 +74,7 @@ __CPROVER_ensures((*pos == VF_IOS_cur && GOOD0 && AVAIL0 >= nByteToRead) ==> (!S
 /*@ C16 : readUint.work-bounded */ __CPROVER_ensures(ST->work <= __CPROVER_old(ST->work) + nByteToRead)
 #ifdef VF_TRACK_ALLOC
 /*@ C16 : readUint.allocation-bounded */
-__CPROVER_ensures(vf_max_alloc <= (__CPROVER_old(vf_max_alloc) > 5 ? __CPROVER_old(vf_max_alloc) : 5))
+__CPROVER_ensures(vf_max_alloc <= (__CPROVER_old(vf_max_alloc) > (size_t)nByteToRead + 1 ? __CPROVER_old(vf_max_alloc) : (size_t)nByteToRead + 1))
 #endif
 /*@ C16 C10 : readUint.nothrow */ __CPROVER_ensures(vf_exc == 0);
 
@@ -90,7 +90,7 @@ void h_readUint(void)
 
 int contract_c3d__readInt(struct c3d *self, unsigned int nByteToRead, int nByteFromPrevious, const int *pos)
 __CPROVER_requires(vf_exc == 0 && __CPROVER_rw_ok(self, sizeof(*self)) && VF_ISTREAM_OK(ST) && __CPROVER_r_ok(pos, sizeof(*pos)) &&
-                   (nByteToRead == 1 || nByteToRead == 2 || nByteToRead == 4))
+                   (nByteToRead == 1 || nByteToRead == 2 || (nByteToRead >= 4 && nByteToRead <= 512)))
 __CPROVER_assigns(ST->pos, ST->eof, ST->fail, ST->work VF_GHOST_ALLOC)
 /*@ C02 C12 : readInt.signed-byte */
 __CPROVER_ensures((*pos == VF_IOS_cur && GOOD0 && nByteToRead == 1 && AVAIL0 >= 1) ==>
@@ -111,7 +111,7 @@ __CPROVER_ensures((*pos == VF_IOS_cur && GOOD0 && AVAIL0 >= nByteToRead) ==> (!S
 /*@ C16 : readInt.work-bounded */ __CPROVER_ensures(ST->work <= __CPROVER_old(ST->work) + nByteToRead)
 #ifdef VF_TRACK_ALLOC
 /*@ C16 : readInt.allocation-bounded */
-__CPROVER_ensures(vf_max_alloc <= (__CPROVER_old(vf_max_alloc) > 5 ? __CPROVER_old(vf_max_alloc) : 5))
+__CPROVER_ensures(vf_max_alloc <= (__CPROVER_old(vf_max_alloc) > (size_t)nByteToRead + 1 ? __CPROVER_old(vf_max_alloc) : (size_t)nByteToRead + 1))
 #endif
 /*@ C16 C10 : readInt.nothrow */ __CPROVER_ensures(vf_exc == 0);
 
